@@ -11,7 +11,7 @@ from ..cases import dec_array, enc_array, enc_value, gen_chunks, gen_codes
 from ..cluster import TaskError, Violation
 from ..redcase import exec_sim, shrink_reduce, simplify_knobs, swarm_knobs
 from ..runner import REFUSALS, Skip, classify_exception
-from ..seams import simulated_planner_pool
+from ..seams import simulated_planner_pool, simulated_planner_pool_preemptive
 from ..simexec import RunInfo
 from ..tape import Tape
 
@@ -22,7 +22,7 @@ RULE = (
     "Three layers per batch. (1) planner: flox.core.find_group_cohorts called with generated integer label codes "
     "(periodic / localised / random / runs; 1-D and 2-D; -1 for missing, labels absent from expected_groups), chunk "
     "layouts and merge flag, with flox's planner thread pool replaced by a simulated executor whose job order comes "
-    "from the tape: every present label in exactly one cohort, each cohort's block set covers every block holding one of "
+    "from the tape (and, for a quarter of the quick runs and all thorough runs, whose jobs are real threads stepped one source line at a time under sys.settrace with the tape choosing which job advances: the plan must equal the sequentially computed plan): every present label in exactly one cohort, each cohort's block set covers every block holding one of "
     "its labels, 'blockwise' only if every label lives in one block. (2) closure as history: for a random strategy the "
     "graph is executed on the simulated cluster once per (sampled) output chunk with only that chunk requested; the "
     "recorded history of value blocks loaded must contain every block holding one of the chunk's labels and no block of "
@@ -34,9 +34,9 @@ RULE = (
 )
 ASSUMPTIONS = [
     "sampled, not enumerated (the exhaustive-up-to-a-bound part of the quantifier would be model checking)",
-    "planner jobs are atomic (job order is simulated, not line-level interleaving inside a job)",
+    "line-level interleaving of planner jobs switches threads only at Python line boundaries inside flox frames (not inside a NumPy call)",
 ]
-PROBES = ["planner_threadpool_branch", "planner_serial_branch", "planner_jobs_reordered", "planner_prefers_cohorts",
+PROBES = ["planner_jobs_preempted_linewise", "planner_threadpool_branch", "planner_serial_branch", "planner_jobs_reordered", "planner_prefers_cohorts",
           "planner_prefers_blockwise", "planner_prefers_mapreduce", "planner_merged_by_containment", "labels_2d",
           "closure_cohorts", "closure_blockwise", "conservation_crash", "conservation_dup", "cohorts_multi"]
 
@@ -68,6 +68,8 @@ def gen(tape: Tape, tier: str) -> dict:
     }
     if layer == "planner":
         case["merge"] = bool(tape.chance("gen.merge", 0.5))
+        # line-level pre-emption between the planner's thread-pool jobs (all planner runs in thorough, a quarter in quick)
+        case["preempt"] = bool(tier == "thorough" or tape.chance("gen.preempt", 0.25))
         case["expected"] = tape.choice("gen.expected", ["none", "exact", "bigger"])
         case["extra_lead_chunks"] = None
     else:
@@ -134,7 +136,9 @@ def run_planner(case, tape, ctx):
         expected = pd.RangeIndex(maxlab + 1)
     else:
         expected = pd.RangeIndex(maxlab + 1 + 3)
-    with simulated_planner_pool(tape) as pst:
+    preempt = bool(case.get("preempt"))
+    pool_cm = simulated_planner_pool_preemptive(tape) if preempt else simulated_planner_pool(tape)
+    with pool_cm as pst:
         try:
             method, cohorts = find_group_cohorts(codes, chunks, expected_groups=expected, merge=case["merge"])
         except Exception as e:  # noqa: BLE001
@@ -144,6 +148,16 @@ def run_planner(case, tape, ctx):
     ctx.probe("planner_threadpool_branch", pst["jobs"] > 0)
     ctx.probe("planner_serial_branch", pst["jobs"] == 0 and nblocks > 1)
     ctx.probe("planner_jobs_reordered", pst["reordered"] > 0)
+    ctx.probe("planner_jobs_preempted_linewise", pst.get("switches", 0) > 0)
+    ctx.count("planner_line_steps", pst.get("steps", 0))
+    if preempt and pst["jobs"] > 1:
+        # the plan must not depend on how the jobs were interleaved: compare with the sequential plan
+        with simulated_planner_pool(None) as _:
+            m2, c2 = find_group_cohorts(codes, chunks, expected_groups=expected, merge=case["merge"])
+        if m2 != method or {tuple(sorted(k)): sorted(v) for k, v in c2.items()} != {tuple(sorted(k)): sorted(v) for k, v in cohorts.items()}:
+            raise Violation("cover", f"the plan depends on how the planner's thread-pool jobs interleave: line-level interleaving gave "
+                            f"{method} {dict(cohorts)}, sequential execution gives {m2} {dict(c2)}; codes={codes.tolist()} chunks={chunks}",
+                            kind="race")
     ctx.probe("planner_prefers_" + {"map-reduce": "mapreduce"}.get(method, method))
     ctx.probe("labels_2d", codes.ndim == 2)
     ctx.nontrivial = nblocks >= 2 and len(present) >= 2
